@@ -55,9 +55,15 @@ def syntax_ok(d, m):
         import re as _re
         files = _re.findall(r'^\+\+\+ b/(\S+)', open(os.path.join(HERE, m['patch'])).read(), flags=_re.M)
         edits = [{'file': f} for f in files]
+    try:
+        built = set(core.source_units(d))
+    except Exception:
+        built = None
     for ed in edits:
         if not ed['file'].endswith('.c'):
             continue
+        if built is not None and os.path.basename(ed['file']) not in built:
+            continue          # a unit of another platform (win32, kqueue, ...): not part of this configuration's build
         r = subprocess.run(['clang-14', '-fsyntax-only', '-Werror=implicit-function-declaration'] + core.compile_flags(d)[:-1] +
                            [os.path.basename(ed['file'])], cwd=os.path.join(d, 'src'), capture_output=True, text=True)
         if r.returncode != 0:
